@@ -21,6 +21,7 @@ use std::hash::Hasher;
 use crate::codec::SketchBytes;
 use crate::codec::SketchSlice;
 use crate::codec::assert::ensure_preamble_longs_in_range;
+use crate::codec::assert::ensure_remaining;
 use crate::codec::assert::ensure_serial_version_is;
 use crate::codec::assert::insufficient_data;
 use crate::codec::family::Family;
@@ -450,6 +451,10 @@ impl BloomFilter {
         }
 
         let num_words = num_longs as usize;
+        if !is_empty {
+            // num_bits_set and the bit array must be present before the array is allocated
+            ensure_remaining(&cursor, num_words + 1, 8, "bit_array")?;
+        }
         let mut bit_array = vec![0u64; num_words].into_boxed_slice();
         let num_bits_set;
 
